@@ -11,6 +11,8 @@ import TgModel.SymbolMap
 import TgModel.Host
 import TgModel.Sched
 import TgModel.Session
+import TgModel.Ide.Handlers
+import Lean.Data.Json
 
 open Tg
 
@@ -221,6 +223,121 @@ def cmdSession (rest : String) : String :=
       s!"files={files} view: {" ".intercalate views} version={st.version}"
   | _ => "bad-args"
 
+
+/-! ### `ws <json>`: the IDE model on an in-memory workspace (same protocol as `harness/src/ws.rs`) -/
+section Ws
+open Lean (Json)
+open Tg.Ide
+
+def jNat (n : Nat) : Json := Lean.toJson n
+def jOptStr : Option String → Json
+  | some s => Json.str s
+  | none => Json.null
+
+def jLoc (ws : Workspace) (l : SymbolMap.Loc) : Json :=
+  Json.arr #[Json.str (ws.pathStr l.file), jNat l.start, jNat l.stop]
+
+partial def jSym (s : Handlers.DocumentSymbol) : Json :=
+  Json.mkObj [("name", Json.str s.name), ("typ", Json.str s.typ), ("kind", Json.str s.kind.debug),
+    ("range", Json.arr #[jNat s.range.1, jNat s.range.2]),
+    ("children", Json.arr (s.children.map jSym).toArray)]
+
+def jPanic (msg : String) : Json := Json.mkObj [("panic", Json.str msg)]
+
+def jResult {α : Type} (r : Except String (Option α)) (f : α → Json) : Json :=
+  match r with
+  | .error e => jPanic e
+  | .ok none => Json.null
+  | .ok (some a) => f a
+
+def wsQuery (an : Analysis) (q : Json) : Json :=
+  let ws := an.ws
+  let name := match q.getArrVal? 0 with | .ok (.str s) => s | _ => ""
+  let file (i : Nat) : Option Nat := match q.getArrVal? i with | .ok (.str p) => ws.idOf p | _ => none
+  let num (i : Nat) : Nat := match q.getArrVal? i with
+    | .ok j => (match j.getNat? with | .ok n => n | _ => 0)
+    | _ => 0
+  let withFile (k : Nat → Json) : Json := match file 1 with | none => Json.str "no-file" | some f => k f
+  match name with
+  | "diagnostics" =>
+    match Handlers.diagnosticsExec an with
+    | .error e => jPanic e
+    | .ok m =>
+      let rows := (m.map fun (f, ds) => (ws.pathStr f, ds)).toArray.qsort (fun a b => a.1 < b.1)
+      Json.arr (rows.map fun (p, ds) => Json.arr #[Json.str p, Json.arr (ds.map fun d =>
+        Json.arr #[Json.str (ws.pathStr d.location.file), jNat d.location.start, jNat d.location.stop, Json.str d.message]).toArray])
+  | "document_symbol" => withFile fun f =>
+    jResult (Handlers.documentSymbolExec an f) fun v => Json.arr (v.map jSym).toArray
+  | "folding_range" => withFile fun f =>
+    jResult (Handlers.foldingRangeExec an f) fun v => Json.arr (v.map fun r => Json.arr #[jNat r.1, jNat r.2]).toArray
+  | "document_link" => withFile fun f =>
+    jResult (Handlers.documentLinkExec an f) fun v =>
+      Json.arr (v.map fun (r, t) => Json.arr #[jNat r.1, jNat r.2, Json.str (ws.pathStr t)]).toArray
+  | "goto" => withFile fun f => jResult (Handlers.gotoDefinitionExec an f (num 2)) (jLoc ws)
+  | "references" => withFile fun f =>
+    jResult (Handlers.referencesExec an f (num 2)) fun v => Json.arr (v.map (jLoc ws)).toArray
+  | "hover" => withFile fun f =>
+    jResult (Handlers.hoverExec an f (num 2)) fun h =>
+      Json.mkObj [("signature", Json.str h.signature), ("document", jOptStr h.document)]
+  | "inlay_hint" => withFile fun f =>
+    jResult (Handlers.inlayHintExec an f (num 2) (max (num 3) (num 2))) fun v =>
+      Json.arr (v.map fun h => Json.arr #[jNat h.position, Json.str h.label, Json.str h.kind.debug]).toArray
+  | "completion" => withFile fun f =>
+    let trig := match q.getArrVal? 3 with | .ok (.str s) => some s | _ => none
+    jResult (Handlers.completionExec an f (num 2) trig) fun v =>
+      Json.arr (v.map fun c => Json.arr #[Json.str c.label, jOptStr c.insertTextSnippet, Json.str c.kind.debug]).toArray
+  | _ => Json.str "bad-query"
+
+def jOp (ws : Workspace) : SymbolMap.Op → Json
+  | .define n l => Json.arr #[Json.str "D", Json.str (String.ofList n), Json.str (ws.pathStr l.file), jNat l.start, jNat l.stop]
+  | .defineAnon n l => Json.arr #[Json.str "A", Json.str (String.ofList n), Json.str (ws.pathStr l.file), jNat l.start, jNat l.stop]
+  | .reference s l => Json.arr #[Json.str "R", jNat s, Json.str (ws.pathStr l.file), jNat l.start, jNat l.stop]
+
+def cmdWs (rest : String) : String :=
+  match Json.parse rest with
+  | .error e => s!"bad-json {e}"
+  | .ok spec =>
+    let files : List (String × String) := match spec.getObjVal? "files" with
+      | .ok (.obj kvs) => kvs.foldl (fun acc k v => match v with | .str s => acc ++ [(k, s)] | _ => acc ++ [(k, "")]) []
+      | _ => []
+    let includeDir := match spec.getObjVal? "include_dir" with | .ok (.str d) => some d | _ => none
+    let rootp := match spec.getObjVal? "root" with | .ok (.str r) => r | _ => "/main.td"
+    match buildWorkspace files rootp includeDir with
+    | .error e => "PANIC " ++ e
+    | .ok ws =>
+      let an := Analysis.new ws
+      let qs := match spec.getObjVal? "queries" with | .ok (.arr a) => a | _ => #[]
+      let out := Json.arr (qs.map (wsQuery an))
+      match spec.getObjVal? "oplog" with
+      | .ok (.bool true) =>
+        let ops := match an.index with
+          | .ok r => Json.arr (r.symbolMap.ops.map (jOp ws))
+          | .error _ => jPanic "index"
+        (Json.mkObj [("r", out), ("ops", ops)]).compress
+      | _ => out.compress
+
+/-- `wscheck <json>`: does the array implementation of the symbol-map model agree with `SymbolMap.run`? -/
+def cmdWsCheck (rest : String) : String :=
+  match Json.parse rest with
+  | .error e => s!"bad-json {e}"
+  | .ok spec =>
+    let files : List (String × String) := match spec.getObjVal? "files" with
+      | .ok (.obj kvs) => kvs.foldl (fun acc k v => match v with | .str s => acc ++ [(k, s)] | _ => acc ++ [(k, "")]) []
+      | _ => []
+    let includeDir := match spec.getObjVal? "include_dir" with | .ok (.str d) => some d | _ => none
+    let rootp := match spec.getObjVal? "root" with | .ok (.str r) => r | _ => "/main.td"
+    match buildWorkspace files rootp includeDir with
+    | .error e => "PANIC " ++ e
+    | .ok ws =>
+      match Index.index ws with
+      | .error e => s!"index-panic {e}"
+      | .ok r =>
+        let a := SymbolMap.run r.symbolMap.ops.toList
+        let b := SymRun.runFast r.symbolMap.ops
+        s!"ops={r.symbolMap.ops.size} equal={SymRun.stateEq a b}"
+
+end Ws
+
 def dispatch (cmd rest : String) : String :=
   match cmd with
   | "lex" => match payload rest with | some s => cmdLex s | none => "bad-utf8"
@@ -235,6 +352,8 @@ def dispatch (cmd rest : String) : String :=
   | "host" => cmdHost rest
   | "sched" => cmdSched rest
   | "session" => cmdSession rest
+  | "ws" => cmdWs rest
+  | "wscheck" => cmdWsCheck rest
   | _ => s!"bad-cmd {cmd}"
 
 partial def loop (h : IO.FS.Stream) (out : IO.FS.Stream) : IO Unit := do
